@@ -117,9 +117,11 @@ class CHECK(core.Check):
                "is proved to parse back, given that the entries' lines are well-formed header lines that frame the body; that "
                "buildParts chooses such entries (Content-Length exactly for a non-empty body) and that urlsplit/quote/unquote/"
                "quote_plus round-trip paths and query values is established by the correspondence runs, not in Lean",
-               "response direction: Responder.service -> wire -> Respondent is proved end to end for the chunked mode "
-               "(C30_responder_frames_chunked); for Content-Length / until-close / HTTPError responses the responder-to-wire "
-               "step is correspondence only (the wire-to-client step is proved)",
+               "response direction: Responder.service -> wire -> Respondent is proved end to end in all three framing modes "
+               "(C30_responder_frames_chunked, _length, _until_close) for applications that call start_response once and yield "
+               "non-empty pieces (making up exactly the Content-Length when one is given); for HTTPError responses and "
+               "applications that yield more or fewer bytes than they declared the responder-to-wire step is correspondence "
+               "only (the wire-to-client step is proved)",
                "whole-buffer parsing only (arrival in pieces is C29); multipart/form-data bodies (random boundary), server "
                "sent events, idna fallbacks, AttributiveGenerator overrides, Python int() spellings with sign/underscore/0x "
                "are outside the model"]
@@ -141,7 +143,9 @@ class CHECK(core.Check):
                   "wsgi.url_scheme is http or https, https exactly for TLS (C30_valet_environ_scheme); a response without a body "
                   "(HEAD, 204, 304) leaves what follows its head — after the chunk terminator if chunked — untouched for the "
                   "next response (C30_response_wire_bodiless, C30_response_wire_chunked); and a WSGI application without Content-Length served by Responder.service is "
-                  "read back by the client with the same status, headers and body (C30_responder_frames_chunked). Partial: "
+                  "read back by the client with the same status, headers and body (C30_responder_frames_chunked), as is one with a "
+                  "Content-Length that its pieces make up (C30_responder_frames_length) and one streamed to a peer that takes "
+                  "no chunks, complete once the connection is closed (C30_responder_frames_until_close). Partial: "
                   "C30_built_request_roundtrip_partial (what Requester.build assembles parses back, given well-formed entries).")
     LEVEL_NOTE = ("Trusted: Lean kernel; axioms propext, Classical.choice, Quot.sound; the hand transcription of httping.py, "
                   "clienting.py (Requester, Respondent) and serving.py (Requestant, Responder, buildEnviron) validated only "
